@@ -26,6 +26,117 @@ from vlib import core, minifort as mf          # noqa: E402
 import c05model as M                           # noqa: E402
 import c05gen as GEN                           # noqa: E402
 
+# ------------------------------------------------------------------------------------------ calls (harness only)
+# ("call", name, [args]): a call of a subroutine defined in the same module (bump, setv) or of an external,
+# opaque, non-pure routine (ext).  Arguments are passed by reference; the callee semantics used by the
+# failing-input search is given by `inline_calls` (no hidden state in the callees).  vlib.minifort is extended
+# in-process (its files are not edited): serialiser, Fortran printer and name collection.
+CALLEES = """
+  subroutine bump(k)
+    integer, intent(inout) :: k
+    k = k + 100
+  end subroutine bump
+  subroutine setv(k, v)
+    integer, intent(out) :: k
+    integer, intent(in) :: v
+    k = 2 * v + 1
+  end subroutine setv
+"""
+
+
+def inline_calls(ss):
+    """replace every call by the assignments that have the callee's effect"""
+    out = []
+    for s in ss:
+        k = s[0]
+        if k == "call":
+            args = s[2]
+            if s[1] == "bump":
+                a = args[0]
+                out.append(("assign", a[1], a[2] if a[0] == "idx" else [], ("bin", "Add", a, ("lit", 100))))
+            elif s[1] == "setv":
+                a = args[0]
+                if a[0] in ("var", "idx"):
+                    out.append(("assign", a[1], a[2] if a[0] == "idx" else [],
+                                ("bin", "Add", ("bin", "Mul", ("lit", 2), args[1]), ("lit", 1))))
+            else:       # ext: opaque; modifies every by-reference argument
+                for a in args:
+                    if a[0] in ("var", "idx"):
+                        out.append(("assign", a[1], a[2] if a[0] == "idx" else [],
+                                    ("bin", "Add", ("bin", "Mul", ("lit", 2), a), ("lit", 3))))
+        elif k == "if":
+            out.append(("if", s[1], inline_calls(s[2]), inline_calls(s[3])))
+        elif k == "do":
+            out.append(s[:5] + (inline_calls(s[5]),))
+        elif k in ("region", "dir"):
+            out.append((k, s[1], inline_calls(s[2])))
+        else:
+            out.append(s)
+    return out
+
+
+def _install_call_support():
+    if getattr(mf, "_c05_calls", False):
+        return
+    mf._c05_calls = True
+    orig_from = mf.stmt_from_psyir
+
+    def stmt_from_psyir(n):
+        from psyclone.psyir import nodes as N
+        if isinstance(n, N.Call) and not isinstance(n, N.IntrinsicCall):
+            if any(n.argument_names):
+                raise mf.OutOfSubset("named call argument")
+            return ("call", n.routine.name.lower(), [mf.expr_from_psyir(a) for a in n.arguments])
+        return orig_from(n)
+    mf.stmt_from_psyir = stmt_from_psyir
+    orig_f = mf.stmts_to_fortran
+
+    def stmts_to_fortran(ss, ind="  "):
+        out = []
+        for s in ss:
+            if s[0] == "call":
+                out.append("%scall %s(%s)" % (ind, s[1], ", ".join(mf.expr_to_fortran(x) for x in s[2])))
+            elif s[0] == "if":
+                out.append("%sif (%s) then" % (ind, mf.expr_to_fortran(s[1])))
+                out += stmts_to_fortran(s[2], ind + "  ")
+                if s[3]:
+                    out.append(ind + "else")
+                    out += stmts_to_fortran(s[3], ind + "  ")
+                out.append(ind + "end if")
+            elif s[0] == "do":
+                out.append("%sdo %s = %s, %s, %s" % (ind, s[1], mf.expr_to_fortran(s[2]), mf.expr_to_fortran(s[3]),
+                                                    mf.expr_to_fortran(s[4])))
+                out += stmts_to_fortran(s[5], ind + "  ")
+                out.append(ind + "end do")
+            else:
+                out += orig_f([s], ind)
+        return out
+    mf.stmts_to_fortran = stmts_to_fortran
+    orig_names = mf.all_names
+
+    def all_names(stmts, acc=None):
+        acc = set() if acc is None else acc
+        for s in stmts:
+            if s[0] == "call":
+                for x in s[2]:
+                    mf.expr_names(x, acc)
+            elif s[0] == "if":
+                mf.expr_names(s[1], acc)
+                all_names(s[2], acc)
+                all_names(s[3], acc)
+            elif s[0] == "do":
+                acc.add(s[1])
+                for x in s[2:5]:
+                    mf.expr_names(x, acc)
+                all_names(s[5], acc)
+            else:
+                orig_names([s], acc)
+        return acc
+    mf.all_names = all_names
+
+
+_install_call_support()
+
 TRANS = ["fuse", "swap", "chunk", "tile", "hoist", "hoistbound", "induction", "fold"]
 BNDS = {a: bs for a, _, bs in GEN.DECLS if bs}
 DECLARED = {a for a, _, _ in GEN.DECLS}
@@ -50,6 +161,8 @@ class Impl:
     def read(self, stmts, neglit=False):
         """tuples -> (psyir container, canonical tuples as the reader sees them, fortran text)"""
         text = mf.to_fortran("sub", stmts, GEN.DECLS)
+        if M.has_kind(stmts, ("call",)):
+            text = "module c05mod\ncontains\n" + text + CALLEES + "end module c05mod\n"
         return self.read_text(text, neglit)
 
     def read_text(self, text, neglit=False):
@@ -241,6 +354,7 @@ def sem_diff(p0, p1, stores, ex):
     """first store on which the observable results differ -> dict, else None.  Stores on which the original
     faults (division by zero, zero step) are skipped: the property is about defined executions."""
     nrun = 0
+    p0, p1 = inline_calls(p0), inline_calls(p1)
     for vals in stores:
         r0 = mf.interp(p0, vals, BNDS)
         if r0[0] != "ok":
@@ -443,6 +557,9 @@ class Runner:
 
     def coq_case(self, trans, p0, target, opt, r_mod, aux_names):
         """queue the case for the Coq model: request, program, the mirror's result (None = refuses)"""
+        if M.has_kind(p0, ("call",)):
+            self.st("cases_with_calls_not_sent_to_coq")
+            return                      # calls are harness-only (Fort.Syntax has no call statement)
         exp = r_mod[1] if r_mod[0] == "accepted" else None
         key = repr(p0)
         if key not in self.coq_groups:
